@@ -246,7 +246,7 @@ def parse_playback(out):
     return items
 
 
-def run_many(jobs, workers, log, playback=False, deadline=None):
+def run_many(jobs, workers, log, playback=False, deadline=None, followup=None, followup_results=None):
     """jobs: list of (crate, harness, timeout_s, mem_gb, outdir). Returns results in order.
     `deadline` (time.time() value): queries not started by then are returned as 'skipped', and a
     running query's cap is cut to the time remaining (tier wall-clock budget)."""
@@ -265,19 +265,44 @@ def run_many(jobs, workers, log, playback=False, deadline=None):
                     return {"harness": j[1], "crate": j[0].name, "rc": None, "secs": 0.0, "timed_out": False,
                             "checks": [], "status": "skipped", "stats": {}, "raw_tail": ""}
                 j = (j[0], j[1], min(j[2], int(left)), j[3], j[4])
-            return run_harness(*j, playback=playback, slot=s)
+            # concrete playback is always requested: it costs nothing on a passing query and a failing
+            # one then already carries its counterexamples (no second solver run)
+            return run_harness(*j, playback=True, slot=s)
         finally:
             slots.put(s)
 
-    with cf.ThreadPoolExecutor(max_workers=workers) as ex:
+    def one_pb(j):
+        # counterexample request for a harness that just failed: runs as soon as a worker is free,
+        # ahead of the remaining queue (it is what turns a failing check into a reportable violation)
+        s = slots.get()
+        try:
+            return run_harness(*j, playback=True, slot=s)
+        finally:
+            slots.put(s)
+
+    with cf.ThreadPoolExecutor(max_workers=workers + 2) as ex:
         futs = {ex.submit(one, j): i for i, j in enumerate(jobs)}
+        pending = set(futs)
+        pbf = {}
         done = 0
-        for f in cf.as_completed(futs):
-            i = futs[f]
-            results[i] = f.result()
-            done += 1
-            r = results[i]
-            log("[%d/%d] %-60s %-12s %6.1fs checks=%s failed=%s" % (
-                done, len(jobs), r["harness"][-60:], r["status"], r["secs"],
-                r.get("n_checks", "-"), r.get("n_failed", "-")))
+        while pending or pbf:
+            fin, _ = cf.wait(list(pending) + list(pbf), return_when=cf.FIRST_COMPLETED)
+            for f in fin:
+                if f in pbf:
+                    name = pbf.pop(f)
+                    if followup_results is not None:
+                        followup_results[name] = f.result()
+                    continue
+                pending.discard(f)
+                i = futs[f]
+                results[i] = f.result()
+                done += 1
+                r = results[i]
+                if followup is not None:
+                    fj = followup(r)
+                    if fj is not None:
+                        pbf[ex.submit(one_pb, fj)] = r["harness"]
+                log("[%d/%d] %-60s %-12s %6.1fs checks=%s failed=%s" % (
+                    done, len(jobs), r["harness"][-60:], r["status"], r["secs"],
+                    r.get("n_checks", "-"), r.get("n_failed", "-")))
     return results
